@@ -61,7 +61,20 @@ def c17(ctx):
         rep.exhaustive["folder_operator_map"] = True
         for v in F.adts[BO]["variants"]:
             op = v["name"]
-            env = ("closure", opcl.path, (E(BE, "BinaryExpression", E(BO, op), ("sym", "lhs"), ("sym", "rhs")),))
+            # what the closure captured: the expression itself, or a copy of its operator, under whatever name
+            caps = []
+            for u in opcl.d["mir"].get("upvars", []):
+                uty = None
+                for e_ in u["place"]["p"]:
+                    if isinstance(e_, dict) and e_.get("of") == "closure":
+                        uty = F.ty(e_["ty"]).peel_refs()
+                if uty is not None and uty.adt() == BE:
+                    caps.append(E(BE, "BinaryExpression", E(BO, op), ("sym", "lhs"), ("sym", "rhs")))
+                elif uty is not None and uty.adt() == BO:
+                    caps.append(E(BO, op))
+                else:
+                    caps.append(("sym", u.get("name") or "captured"))
+            env = ("closure", opcl.path, tuple(caps))
             a = E(NC, "NumericConstant", ("sym", "a"))
             b = E(RES, "Ok", E(NC, "NumericConstant", ("sym", "b")))
             got = set()
